@@ -157,8 +157,17 @@ def build_proofs(prop_file: str, gen: Callable[[], None] | None = None, timeout:
             text = (COQ / f).read_text()
             names = [m.group(2) for m in OBLIGATION_RE.finditer(text)]
             res.names += [f'{f}:{n}' for n in names]
-            for m in FORBIDDEN_RE.finditer(re.sub(r'\(\*.*?\*\)', '', text, flags=re.S)):
+            code = re.sub(r'\(\*.*?\*\)', '', text, flags=re.S)
+            for m in FORBIDDEN_RE.finditer(code):
                 res.forbidden.append(f'{f}:{m.group(1)}')
+            depth = 0          # a Variable/Hypothesis/Context outside every Section declares an axiom
+            for line in code.split('\n'):
+                if re.match(r'\s*(Section|Module)\s+\w+', line) and not re.match(r'\s*Module\s+\w+\s*:=', line):
+                    depth += 1
+                elif re.match(r'\s*End\s+\w+\s*\.', line):
+                    depth -= 1
+                elif depth <= 0 and re.match(r'\s*(Variable|Variables|Hypothesis|Hypotheses|Context)\b', line):
+                    res.forbidden.append(f'{f}:{line.strip()[:40]} (outside a section)')
         res.obligations = len(res.names)
         deps_vo = [f + 'o' for f in cone if f != prop_file]
         res.cmd = f'make -C coq -j{JOBS} <cone of {prop_file}: {len(cone)} files> ; coqc -R coq KV coq/{prop_file}'
